@@ -40,6 +40,9 @@ type C20Queue struct {
 	// Quota: per consumer, the number of items after which it stops pulling (0: pulls until closed).
 	// The generator keeps the sum of the quotas >= the number of pushes, so the queue can always drain.
 	Quota []int `json:"quota,omitempty"`
+	// ProducersAlone (bounded queue): the consumers start only after every producer has returned - a full
+	// queue must refuse, nobody is there to make room
+	ProducersAlone bool `json:"producers_alone,omitempty"`
 }
 
 func yield(code int) {
@@ -132,7 +135,20 @@ func c20CheckQueue(c C20Queue) *pbt.Violation {
 			}(pi, ys)
 		}
 	}
-	if c.ConsumersFirst {
+	if c.ProducersAlone && c.Kind == "chan" {
+		startProducers()
+		alone := make(chan struct{})
+		go func() { prodWG.Wait(); close(alone) }()
+		select {
+		case <-alone:
+		case <-time.After(10 * time.Second):
+			buf := make([]byte, 1<<16)
+			buf = buf[:runtime.Stack(buf, true)]
+			return pbt.V("c20.queue.push-blocks", "the bounded queue refuses, rather than blocks, when full",
+				"with no consumer pulling, %d producers pushing into a ChannelQueue of capacity %d had not all returned after 10 s\n%s", len(c.Producers), c.Cap, clipStack(buf))
+		}
+		startConsumers()
+	} else if c.ConsumersFirst {
 		startConsumers()
 		time.Sleep(200 * time.Microsecond) // let the consumers park before the first push
 		atomic.StoreInt32(&blockedFirst, 1)
@@ -292,6 +308,7 @@ var c20Queue = pbt.Register(pbt.Prop[C20Queue]{
 		}
 		c.CloseYield = rapid.IntRange(0, 5).Draw(t, "closeyield")
 		c.ConsumersFirst = rapid.Bool().Draw(t, "consumersfirst")
+		c.ProducersAlone = c.Kind == "chan" && rapid.IntRange(0, 2).Draw(t, "producers_alone") == 1
 		c.DrainBeforeClose = rapid.Bool().Draw(t, "drainfirst")
 		if rapid.Bool().Draw(t, "quotas") {
 			// consumers that take a bounded number of items and leave: the others must be woken for the rest
@@ -559,3 +576,79 @@ var c20Players = pbt.Register(pbt.Prop[C20Players]{
 })
 
 func TestC20Players(t *testing.T) { pbt.Run(t, c20Players) }
+
+// ---- the bounded queue at the moment it becomes full ------------------------------------------------------
+//
+// Many rounds of: a ChannelQueue with `Free` slots left, `Producers` goroutines released together, each
+// pushing once, nobody pulling. Every Push must return (refuse, not block), and exactly min(Free, Producers)
+// are accepted.
+
+type C20Bounded struct {
+	Cap       int `json:"cap"`
+	Free      int `json:"free"`
+	Producers int `json:"producers"`
+	Rounds    int `json:"rounds"`
+}
+
+func c20CheckBounded(c C20Bounded) *pbt.Violation {
+	for round := 0; round < c.Rounds; round++ {
+		q := queue.NewChannelQueue[int](c.Cap)
+		for i := 0; i < c.Cap-c.Free; i++ {
+			if !q.Push(-1 - i) {
+				return pbt.V("c20.bounded.refuses-early", "the bounded queue accepts while it has room", "round %d: Push refused with %d of %d slots used", round, i, c.Cap)
+			}
+		}
+		var accepted int32
+		var wg sync.WaitGroup
+		start := make(chan struct{})
+		for p := 0; p < c.Producers; p++ {
+			wg.Add(1)
+			go func(p int) {
+				defer wg.Done()
+				<-start
+				if q.Push(p) {
+					atomic.AddInt32(&accepted, 1)
+				}
+			}(p)
+		}
+		close(start)
+		done := make(chan struct{})
+		go func() { wg.Wait(); close(done) }()
+		select {
+		case <-done:
+		case <-time.After(10 * time.Second):
+			buf := make([]byte, 1<<16)
+			buf = buf[:runtime.Stack(buf, true)]
+			return pbt.V("c20.queue.push-blocks", "the bounded queue refuses, rather than blocks, when full",
+				"round %d: %d producers pushing once each into a ChannelQueue of capacity %d with %d free slots and no consumer: not all Push calls returned within 10 s\n%s",
+				round, c.Producers, c.Cap, c.Free, clipStack(buf))
+		}
+		want := c.Free
+		if c.Producers < want {
+			want = c.Producers
+		}
+		if int(accepted) != want {
+			return pbt.V("c20.bounded.accepted", "refuses when full, accepts while there is room", "round %d: %d of %d pushes accepted, %d slots were free", round, accepted, c.Producers, c.Free)
+		}
+	}
+	return nil
+}
+
+var c20Bounded = pbt.Register(pbt.Prop[C20Bounded]{
+	Name: "C20Bounded",
+	Gen: func(t *rapid.T) C20Bounded {
+		c := C20Bounded{Cap: rapid.SampledFrom([]int{1, 2, 4, 64}).Draw(t, "cap"), Producers: rapid.IntRange(2, 8).Draw(t, "producers"), Rounds: pbt.Pick(1500, 6000)}
+		c.Free = rapid.IntRange(1, 2).Draw(t, "free")
+		if c.Free > c.Cap {
+			c.Free = c.Cap
+		}
+		return c
+	},
+	Check: c20CheckBounded,
+	Classify: func(c C20Bounded) (bool, []string, []byte) {
+		return c.Producers > c.Free, []string{fmt.Sprintf("bounded_cap_%d", c.Cap)}, nil
+	},
+	Quick: 320, Thorough: 4800,
+})
+
+func TestC20Bounded(t *testing.T) { pbt.Run(t, c20Bounded) }
